@@ -119,7 +119,9 @@ def mutation_ops(model):
     for l in picks:
         if "stmt_id" in model.cols:
             ops.append(("modify_element", l, "stmt_id", 3))
-        if "operation" in model.cols:
+        if "operation" in model.cols and all(isinstance(d.get("operation"), (str, type(None))) for _, d in model.rows) \
+                and any(isinstance(d.get("operation"), str) for _, d in model.rows):
+            # (pandas refuses a string in a numeric column; arguments must be valid for the current table)
             ops.append(("modify_element", l, "operation", "assign"))
     if n and model.cols == COLS:
         ops.append(("modify_row", 0, (3, "assign", 5)))
@@ -139,9 +141,13 @@ def mutation_ops(model):
     if "operation" in model.cols:
         ops.append(("remove_rows", "operation", "block_end"))
     if "x" in model.cols and "z" not in model.cols:
-        ops.append(("rename_column", "x", "z"))
+        ops.append(("rename_column", (("x", "z"),)))
     if "z" in model.cols and "x" not in model.cols:
-        ops.append(("rename_column", "z", "x"))
+        ops.append(("rename_column", (("z", "x"),)))
+    if "x" in model.cols and "operation" in model.cols:
+        ops.append(("rename_column", (("x", "operation"), ("operation", "x"))))            # swap in one call
+        if "w" not in model.cols:
+            ops.append(("rename_column", (("x", "operation"), ("operation", "w"))))        # chain in one call
     if n:
         ops.append(("slice", 1, n))
         ops.append(("slice", 0, 1))
@@ -153,7 +159,7 @@ def mutation_ops(model):
 
 
 QUERY_VALUES = [("stmt_id", 1), ("stmt_id", 2), ("stmt_id", 3), ("operation", "assign"),
-                ("operation", "block_end"), ("x", 5), ("y", 1), ("z", 5)]
+                ("operation", "block_end"), ("x", 5), ("y", 1), ("z", 5), ("x", "assign"), ("operation", 5), ("w", "assign")]
 
 
 def query_ops(model):
@@ -249,11 +255,11 @@ def apply(dmmod, dm, model, op, check=True):
         dm.remove_rows(c, v)
         model.rows = [r for r in model.rows if not (r[1].get(c) is not None and r[1].get(c) == v)]
     elif k == "rename_column":
-        _, a, b = op
-        dm.rename_column({a: b})
-        model.cols = [b if c == a else c for c in model.cols]
+        mapping = dict(op[1])
+        dm.rename_column(dict(mapping))
+        model.cols = [mapping.get(c, c) for c in model.cols]
         for r in model.rows:
-            r[1][b] = r[1].pop(a, None)
+            r[1] = {mapping.get(k, k): v for k, v in r[1].items()}
     elif k == "slice":
         _, s, e = op
         dm = dm.slice(s, e)
@@ -546,7 +552,7 @@ def check_viewer(view, rows, lo, hi, rep, ident, stats):
         if (got is not None) != e_first or (got is not None and got is not rows[first]):
             bad("stmt-by-id", f"get_stmt_by_id({sid}) wrong")
         del e
-    for op in ("assign_stmt", "call_stmt", "block_start", "nope"):
+    for op in ("assign_stmt", "call_stmt", "block_start", "block_end", "nope"):
         e = [r for r in vis if r.operation == op]
         if view.query_operation(op) != e:
             bad("query-operation", f"query_operation({op})={view.query_operation(op)} scan={e}")
